@@ -50,10 +50,15 @@ POOL = [
     # a descendant of Str used as a map key / looked up, with names no other program has used before
     "Loud := Str.bear({hello: m{\"hi from an earlier program\"}}); k := Loud.new(\"zzname1\"); [%{k: 1}[k], {zzother: 1}.which(Loud.new(\"zzname2\"))].p",
     "e := \"zzname1 := 1; zzname2 := 2\".evalEnv; e.keys@{|k| [k, k.proto == Str, k.try.hello.A]}.p",
-    "h := import(\"./helper\"); h.keys@{|k| [k, k.proto == Str, k.try.hello.A]}.p",
+    ("h := import(\"./helper\"); h.keys@{|k| [k, k.proto == Str, k.try.hello.A]}.p", "zzname1 := 3; zzname2 := 4"),
+    # modules shared by all programs of a session (same resolved path): one that raises while it loads, one with a syntax error, a good one
+    ("nil.try.{|u| import(\"../lib/broken\")}.A.p; nil.try.{|u| import(\"../lib/broken\")}.err.msg.p", "zzunused := 0"),
+    ("nil.try.{|u| import(\"../lib/syntaxerr\")}.err.S.p; import(\"../lib/good\").v.p", "zzunused := 0"),
+    ("g := import(\"../lib/good\"); [g.v, g.keys].p; nil.try.{|u| import(\"../lib/broken\")}.val.p", "zzunused := 0"),
+    ("import(\"../lib/broken\")", "zzunused := 0"),
 ]
+SHARED = {"lib/broken.pangaea": "v := 1\nraise Err.new(\"boom\")\n", "lib/syntaxerr.pangaea": "v := (1 +\n", "lib/good.pangaea": "v := 42; \"loading good\".p\n"}
 HELPER = {i: p[1] for i, p in enumerate(POOL) if isinstance(p, tuple)}
-HELPER[len(POOL) - 1] = "zzname1 := 3; zzname2 := 4"
 POOL = [p[0] if isinstance(p, tuple) else p for p in POOL]
 
 
@@ -76,7 +81,7 @@ def hh(s):
 
 
 def usable(emb, p):
-    return not (emb == "evalenv" and "`" in p)
+    return not (emb == "evalenv" and "`" in p) and not (emb == "runtest" and "../lib/" in p)      # the test driver would run the shared modules as tests
 
 
 def run():
@@ -92,7 +97,7 @@ def run():
     sessions = [s for s in sessions if len(s) == 2] + ck.rng.sample([s for s in sessions if len(s) == 3], 40000 if thorough else 900)
     # FreshObs: each program alone in a newly started interpreter process
     fresh = {}
-    freqs = [{"id": f"{emb}.{p}", "mode": "session", "embed": emb, "progs": [POOL[p]], "helpers": helpers([p]), "stdin": "l1\nl2\n"} for emb in EMBEDDINGS for p in range(n)]
+    freqs = [{"id": f"{emb}.{p}", "mode": "session", "embed": emb, "progs": [POOL[p]], "helpers": helpers([p]), "shared": SHARED, "stdin": "l1\nl2\n"} for emb in EMBEDDINGS for p in range(n)]
     fout = run_cases(freqs, label="C19 fresh", isolate=True)      # a newly started process each: built-in objects are process-wide
     for emb in EMBEDDINGS:
         for p in range(n):
@@ -109,7 +114,7 @@ def run():
             if not all(usable(emb, POOL[p]) for p in idx):
                 continue
             rid = f"{si}.{emb}"
-            reqs.append({"id": rid, "mode": "session", "embed": emb, "progs": [POOL[p] for p in idx], "helpers": helpers(idx), "stdin": "l1\nl2\n", "deadline_ms": 20000})
+            reqs.append({"id": rid, "mode": "session", "embed": emb, "progs": [POOL[p] for p in idx], "helpers": helpers(idx), "shared": SHARED, "stdin": "l1\nl2\n", "deadline_ms": 20000})
             meta[rid] = (emb, idx)
     out = run_cases(reqs, label="C19 sessions")
     rows, full = [], {}
